@@ -51,6 +51,97 @@ def source_with_helpers(repo, f, _depth=0) -> str:
     return src
 
 
+def norm_cond(c):
+    """Membership tests in one spelling: `k not in d` -> not(k in d); `k in d.keys()` -> k in d."""
+    if isinstance(c, App):
+        if c.op == "not in":
+            return App("not", (norm_cond(App("in", c.args)),))
+        if c.op == "in" and isinstance(c.args[1], App) and c.args[1].op == "meth:keys" and len(c.args[1].args) == 1:
+            return App("in", (norm_cond(c.args[0]), norm_cond(c.args[1].args[0])))
+        return App(c.op, [norm_cond(a) for a in c.args], c.node)
+    return c
+
+
+def taken_outcomes(outs, facts, strict=True):
+    """The outcomes of a function whose path conditions all hold under `facts` ({atomic condition term: bool}, atoms spelled as by
+    norm_cond).  Conditions are evaluated in path order and evaluation stops at the first false one.  A condition the facts do not
+    decide raises AnalysisError when `strict`; otherwise the outcome counts as possible (the caller requires every possible outcome
+    to be the expected one: the case then decides the result whatever that extra condition says)."""
+    from sa.teval import teval, Unknown
+    out = []
+    for o in outs:
+        ok = True
+        for c in o.conds:
+            try:
+                if not teval(norm_cond(c), facts):
+                    ok = False
+                    break
+            except Unknown as e:
+                if strict:
+                    raise AnalysisError(f"path condition not decided by the case analysis: {repr(c)[:160]} ({e})")
+        if ok and _assumes_hold(o.effects, facts):
+            out.append(o)
+    return out
+
+
+def _assumes_hold(effects, facts) -> bool:
+    """False when a fact the path has established on its way (an `if …: raise` it has passed) contradicts the case."""
+    from sa.teval import teval, Unknown
+    for e in effects:
+        if not isinstance(e, App):
+            continue
+        if e.op == "eff:assume":
+            try:
+                if not teval(norm_cond(e.args[0]), facts):
+                    return False
+            except Unknown:
+                pass
+        elif e.op == "eff:if":
+            try:
+                g = teval(norm_cond(e.args[0]), facts)
+            except Unknown:
+                continue
+            if not _assumes_hold(e.args[1].args if g else e.args[2].args, facts):
+                return False
+    return True
+
+
+def select_alternative(t, facts):
+    """The term with every conditional (phi) resolved by `facts` (see taken_outcomes)."""
+    from sa.teval import teval, Unknown
+    if isinstance(t, App) and t.op == "phi":
+        try:
+            g = teval(norm_cond(t.args[0]), facts)
+        except Unknown as e:
+            raise AnalysisError(f"selection not decided by the case analysis: {repr(t.args[0])[:160]} ({e})")
+        return select_alternative(t.args[1] if g else t.args[2], facts)
+    if isinstance(t, App):
+        return App(t.op, [select_alternative(a, facts) for a in t.args], t.node)
+    return t
+
+
+def select_alternatives(t, facts, limit=64):
+    """Every phi-free reading of the term under `facts`: a conditional the facts decide takes that side, one they do not decide
+    takes both."""
+    from sa.teval import teval, Unknown
+    if isinstance(t, App) and t.op == "phi":
+        try:
+            g = teval(norm_cond(t.args[0]), facts)
+            return select_alternatives(t.args[1] if g else t.args[2], facts, limit)
+        except Unknown:
+            return select_alternatives(t.args[1], facts, limit) + select_alternatives(t.args[2], facts, limit)
+    if isinstance(t, App):
+        per = [select_alternatives(a, facts, limit) for a in t.args]
+        n = 1
+        for p_ in per:
+            n *= len(p_)
+        if n > limit:
+            raise AnalysisError("case analysis: too many undecided alternatives")
+        from itertools import product
+        return [App(t.op, list(combo), t.node) for combo in product(*per)]
+    return [t]
+
+
 def container_puts(o):
     """[(kind, key or None, value)]: every value an outcome places into a container under construction, whatever the way it is
     written - subscript stores ('store'), append / insert / add / extend / update calls ('call'; the items of a tuple or list literal
